@@ -517,6 +517,24 @@ func Run(cfg Config) (int, error) {
 				break
 			}
 			add("TD match "+ds+" "+ls, m, "match")
+			// a definition matches exactly when each of its predicates, taken alone, matches
+			if len(d.LogPredicates) > 1 && (m == "true" || m == "false") {
+				all, defined := true, true
+				for pi := range d.LogPredicates {
+					one := &ss.EventTriggerDefinition{Contract: d.Contract, LogPredicates: d.LogPredicates[pi : pi+1]}
+					om, _ := implMatch(one, l)
+					if om != "true" && om != "false" {
+						defined = false
+						break
+					}
+					all = all && om == "true"
+				}
+				res.Count("match:conjunction-checked")
+				if defined && all != (m == "true") {
+					violate("spec", "match-not-conjunction", fmt.Sprintf("Match says %s but its predicates taken one by one say %v: d=%s log=%s", m, all, ds, ls), []string{"TD match " + ds + " " + ls})
+					break
+				}
+			}
 			pass := filterPasses(q, l)
 			if m == "true" && !pass {
 				violate("spec", "filter-hides-match", fmt.Sprintf("log matches the definition but not its filter: d=%s log=%s", ds, ls), []string{"TD match " + ds + " " + ls, "TD passes " + ds + " " + ls})
